@@ -91,7 +91,8 @@ inline int fixed_size(uint8_t type, uint8_t ver)
 }
 
 // ---------------------------------------------------------------- record universe
-// ids 0..23 IPv4, 24..39 IPv6, 40..51 router keys; ids >= 1000: bulk IPv4 /32 records.
+// ids 0..23 IPv4, 24..39 IPv6, 40..51 router keys; bulk records (responses with more than 100 PDUs of a kind):
+// 1000..1999 IPv4 /32, 2000..2999 IPv6 /128, 3000..3999 router keys (SKI of key 40, AS 100000 + i).
 struct URec {
 	int kind = 0; // 0 v4, 1 v6, 2 key
 	uint8_t addr[16] = {0};
@@ -101,6 +102,8 @@ struct URec {
 	uint8_t spki[91] = {0};
 };
 static const int N_UREC = 52;
+static const int BULK4 = 1000, BULK6 = 2000, BULKK = 3000;
+inline bool is_key(int id) { return (id >= 40 && id < N_UREC) || (id >= BULKK && id < BULKK + 1000); }
 
 inline void mask_bits(uint8_t *a, int nbytes, int len)
 {
@@ -111,8 +114,25 @@ inline URec urec_make(int id)
 {
 	URec r;
 	static const uint32_t AS2[2] = {64500, 0};
-	if (id >= 1000) {
-		int i = id - 1000;
+	if (id >= BULKK) {
+		int i = id - BULKK;
+		r.kind = 2;
+		for (int k = 0; k < 20; k++) r.ski[k] = (uint8_t)(0x21 + k); // the SKI of key 40: found by the same lookups
+		r.asn = 100000u + (uint32_t)i;
+		for (int k = 0; k < 91; k++) r.spki[k] = (uint8_t)(k * 5 + 1);
+		return r;
+	}
+	if (id >= BULK6) {
+		int i = id - BULK6;
+		static const uint8_t base[16] = {0x20, 0x01, 0x0d, 0xb8, 0, 9, 0, 0, 0, 0, 0, 0, 0, 0, 0, 0};
+		r.kind = 1;
+		memcpy(r.addr, base, 16);
+		r.addr[14] = (uint8_t)(i >> 8); r.addr[15] = (uint8_t)i;
+		r.len = 128; r.maxlen = 128; r.asn = 7;
+		return r;
+	}
+	if (id >= BULK4) {
+		int i = id - BULK4;
 		r.kind = 0;
 		r.addr[0] = 10; r.addr[1] = 9; r.addr[2] = (uint8_t)(i >> 8); r.addr[3] = (uint8_t)i;
 		r.len = 32; r.maxlen = 32; r.asn = 7;
